@@ -786,6 +786,76 @@ example : Q1.ServedVia q1State q1Msg (subscribers q1State.topics q1Msg.topic).su
 
 end Mochi.Broker
 
+/-! ### Item 4 (partial): from the accepted publish op of QoS 0 / QoS 1 to the served connections -/
+namespace Mochi.Broker
+open Mochi.Topics
+
+theorem q1_noAliases_retainedState {s : Server} (pk : Msg) (h : Q1.NoAliases s) : Q1.NoAliases (retainedState s pk) := by
+  intro id i hm
+  rw [getObj_retainedState]
+  exact h id i (by rw [← (retainedState_quiet s pk).clients]; exact hm)
+
+/-- **Item 4, restricted (hence `_partial`).**  In every state `s` reached by ops without schedule ops and
+    configuration changes (`ReachSeq`) in which no registered client has outbound aliases, with `rs` the state with the
+    retained store updated (`retainedState s m`; it IS `s` when the retain flag is off) and `m = inboundMsg …`:
+    1. the accepted QoS 0 PUBLISH op (`AcceptedQ0`, `step_recv_publish_accepted`) writes a PUBLISH to connection `n`
+       iff `n` is served (`Q1.ServedVia`: entitled, and the copy — QoS 0 here — needs no excuse), at most once;
+    2. the accepted QoS 1 PUBLISH (`processPublish_accepted_qos1`: live network client, valid topic, receive quota
+       within its maximum, write permission, no record under the identifier, no hook mode, the broker grants QoS 1):
+       the handler writes the PUBACK to the publisher FIRST, then a PUBLISH to connection `n` iff `n` is entitled AND
+       (its copy is QoS 0 OR its delivery is in case (d)), at most once; entitled clients in cases (a)–(c) are
+       accounted for by `C03_missing_receiver_excused` applied to `rs`.
+    Not covered (remains): the release tail of the QoS 1 op (`nextImmediate` for the publisher after the routing and
+    after the barrier PINGREQ), the QoS 2 op (`C08_accepted_qos2_shape`: the routing state is `pubrecFiled rs i id`),
+    and reading the subscriber map of `rs` off the index of `s` (`EntitledF03`). -/
+theorem C03_publish_op_exact_any_qos_partial (caps : Caps) (s : Server) (hr : ReachSeq caps s) (hna : Q1.NoAliases s) :
+    (∀ (conn i : Nat) (dup retain : Bool) (topic payload : Str) (me : Nat),
+      assocGet s.connOf conn = some i → AcceptedQ0 s i topic → (subscribers s.topics topic).shared = [] →
+      ∀ n, ((∃ ver m mes, Out.wrote n (.publish ver m mes) ∈
+              (step s (.recv conn (.publish 0 dup retain 0 topic payload me none))).2) ↔
+            Q1.ServedVia (retainedState s (inboundMsg s i 0 dup retain 0 topic payload me))
+              (inboundMsg s i 0 dup retain 0 topic payload me)
+              (subscribers (retainedState s (inboundMsg s i 0 dup retain 0 topic payload me)).topics topic).subs n) ∧
+          ((step s (.recv conn (.publish 0 dup retain 0 topic payload me none))).2.filterMap pubConn).count n ≤ 1) ∧
+    (∀ (i : Nat) (dup retain : Bool) (id : Nat) (topic payload : Str) (me : Nat),
+      (getObj s i).isOpen = true → (getObj s i).peerGone = false → (getObj s i).inline = false →
+      isValidFilter topic true = true → (getObj s i).recvQuota ≠ 0 → (getObj s i).recvQuota ≤ (getObj s i).maxRecv →
+      aclOk s (getObj s i).id topic true = true → flGet (getObj s i) id = none → topic ≠ [] →
+      assocGet s.pubHook topic = none → 1 ≤ s.caps.maximumQos → (subscribers s.topics topic).shared = [] →
+      (∃ rest, (processPublish s i 1 dup retain id topic payload me none).2.1 =
+          Out.wrote (getObj s i).conn (.ack (getObj s i).ver 4 id 1) :: rest ∧
+        ∀ n, ((∃ ver m mes, Out.wrote n (.publish ver m mes) ∈ rest) ↔
+            Q1.ServedVia (retainedState s (inboundMsg s i 1 dup retain id topic payload me))
+              (inboundMsg s i 1 dup retain id topic payload me)
+              (subscribers (retainedState s (inboundMsg s i 1 dup retain id topic payload me)).topics topic).subs n) ∧
+          (rest.filterMap pubConn).count n ≤ 1)) := by
+  obtain ⟨hs, hw, hcm, _⟩ := hr.inv
+  refine ⟨fun conn i dup retain topic payload me hc h hsh n => ?_,
+    fun i dup retain id topic payload me hopen hpeer hin hv hrq hmax hacl hfl hne hhook hmq hsh => ?_⟩
+  · have hnh := no_hash_level topic h.valid
+    have hsh' := (retainedState_shared s (inboundMsg s i 0 dup retain 0 topic payload me) hs.idx topic h.nonempty hnh).mpr hsh
+    obtain ⟨_, iw, ic⟩ := retainedState_inv (inboundMsg s i 0 dup retain 0 topic payload me) hs hw hcm
+    rw [step_recv_publish_accepted s conn i dup retain topic payload me hc h hsh']
+    obtain ⟨g1, g2, _⟩ := publishToSubscribers_writes_exact_qos _ iw ic.distinct (q1_noAliases_retainedState _ hna)
+      (inboundMsg s i 0 dup retain 0 topic payload me) rfl rfl hsh' n
+    exact ⟨g1, g2⟩
+  · have hnh := no_hash_level topic hv
+    have hsh' := (retainedState_shared s (inboundMsg s i 1 dup retain id topic payload me) hs.idx topic hne hnh).mpr hsh
+    obtain ⟨_, iw, ic⟩ := retainedState_inv (inboundMsg s i 1 dup retain id topic payload me) hs hw hcm
+    rw [processPublish_accepted_qos1 s i dup retain id topic payload me hopen hpeer hin hv hrq hmax hacl hfl hne hhook hmq]
+    refine ⟨_, rfl, fun n => ?_⟩
+    obtain ⟨g1, g2, _⟩ := publishToSubscribers_writes_exact_qos _ iw ic.distinct (q1_noAliases_retainedState _ hna)
+      (inboundMsg s i 1 dup retain id topic payload me) rfl rfl hsh' n
+    exact ⟨g1, g2⟩
+
+/-- non-vacuity: in `q1State` the NEXT op of `p` — PUBLISH QoS 1 `a/b` — writes the PUBACK, then one PUBLISH, to
+    connection 1 only (`y` deferred, `z` at the limit) -/
+example : (step q1State (.recv 4 (.publish 1 false false 3 [97, 47, 98] [3] 0 none))).2.map
+      (fun o => match o with | .wrote n p => (n, p.render) | _ => (0, "")) =
+    [(4, "PUBACK:id3:rc01"), (1, "PUB:q1:d0:r0:id2:t=612f62:p=03:si=:ta=-:me0")] := by decide
+
+end Mochi.Broker
+
 #print axioms Mochi.Broker.publishToSubscribers_writes_exact
 #print axioms Mochi.Broker.C03_delivery_exact_state_partial
 #print axioms Mochi.Broker.C03_delivery_exact_runOps_partial
@@ -804,3 +874,4 @@ end Mochi.Broker
 #print axioms Mochi.Broker.recv_publish_delivery_exact_releases
 #print axioms Mochi.Broker.publishToSubscribers_writes_exact_qos
 #print axioms Mochi.Broker.C03_missing_receiver_excused
+#print axioms Mochi.Broker.C03_publish_op_exact_any_qos_partial
